@@ -6,7 +6,7 @@
    filters and of the set-theoretic queries. *)
 From Coq Require Import String ZArith List Bool.
 From XV Require Import Base.Label Base.LSet Base.ODict Base.Attr Base.Outcome Model.Hypergraph Model.Stats
-  Proofs.HgViews Proofs.HgInv Proofs.StatsProofs Model.DiHypergraph Proofs.DiInv Proofs.DuplicatesProofs Proofs.NeighborsS Gen.FilterModes Proofs.FilterSource.
+  Proofs.HgViews Proofs.HgInv Proofs.StatsProofs Model.DiHypergraph Proofs.DiInv Proofs.DuplicatesProofs Proofs.NeighborsS Gen.FilterModes Proofs.FilterSource Model.PySem Gen.BasicStats Proofs.StatsSource.
 Import ListNotations.
 Open Scope Z_scope.
 
@@ -124,6 +124,16 @@ Theorem C06_filter_modes_are_source : forall m x v,
   src_filterby_attr (mode_name m) x v (mode_hi m) = Some (fcmp m x v).
 Proof. intros m x v. split; [apply fcmp_is_source|apply fcmp_attr_is_source]. Qed.
 Print Assumptions C06_filter_modes_are_source.
+
+(* THE SOURCE TIE for the basic statistics: Gen/BasicStats.v is regenerated on every run from
+   xgi/stats/nodestats.py::degree and xgi/stats/edgestats.py::size / ::order (harness/translate_stats.py, fail-closed);
+   the model's degree (all four order / weight combinations), edge size and edge order compute exactly these functions *)
+Theorem C06_basic_stats_are_source : forall s,
+  (forall order weight n, degree order weight s n = src_degree order weight s n) /\
+  (forall deg e, edge_size deg s e = src_size deg s e) /\
+  (forall deg e, edge_order deg s e = src_order deg s e).
+Proof. intro s. split; [intros; apply degree_is_source|split; intros; [apply edge_size_is_source|apply edge_order_is_source]]. Qed.
+Print Assumptions C06_basic_stats_are_source.
 
 Example C06_nonvacuous :
   let s := run [OAddEdgesFrom (EB1 [[LInt 1; LInt 2; LInt 3]; [LInt 1; LInt 2]; [LInt 3; LInt 4]; [LInt 1; LInt 2]]) []] hg_empty in
